@@ -251,7 +251,18 @@ func (n *Node) Query(path string, req proto.Message, resp proto.Message) error {
 	if err != nil {
 		return err
 	}
-	r, err := n.App.Query(nil, &abci.RequestQuery{Path: path, Data: bz})
+	var r *abci.ResponseQuery
+	if n.App.LastBlockHeight() == 0 {
+		// nothing is committed yet (right after InitChain, e.g. on a chain re-imported from an export): the ABCI
+		// query path has no version to read, so the same gRPC handler is run on the InitChain state
+		h := n.App.GRPCQueryRouter().Route(path)
+		if h == nil {
+			return fmt.Errorf("query %s: no such route", path)
+		}
+		r, err = h(n.ReadCtx(), &abci.RequestQuery{Path: path, Data: bz})
+	} else {
+		r, err = n.App.Query(nil, &abci.RequestQuery{Path: path, Data: bz})
+	}
 	if err != nil {
 		return err
 	}
